@@ -2199,6 +2199,18 @@ func @Sum(n int) int {
 	return s
 }`, Drives: []Drive{fn("int", "@Sum", "4")}},
 
+	{Name: "YieldAsFunctionValue", Props: []string{"C12", "C01"}, Finding: "D42", Src: `
+// Yield used as a VALUE (bound to a variable, passed as a callback) is neither rewritten nor rejected
+func @each(xs []int, f func(int)) { for _, x := range xs { f(x) } }
+GEN(int) @G(xs []int) {
+	YIELD(1)
+	emit := YIELDVALUE(int)
+	emit(2)
+	@each(xs, YIELDVALUE(int))
+	YIELD(3)
+	RETURN
+}`, Drives: []Drive{gen("int", "@G", "[]int{7, 8}")}},
+
 	{Name: "ElementTypeNameShadowed", Props: []string{"C11", "C01"}, Finding: "D33", Src: `
 // a parameter / local variable named like the element type of the generator
 type @tree struct { v int; l, r *@tree }
